@@ -675,7 +675,7 @@ func (v *variable) index(toks tokens) int {
 			}
 
 		case tokenStarStar:
-			if j := toks.index(tokenVerb); j != -1 {
+			if j := toks[i:].index(tokenVerb); j != -1 {
 				i += j
 			} else {
 				i = n // EOL
